@@ -162,7 +162,9 @@ func (tb *ATable) RegisterPropertyCallback(
 		*cbListPtr = make([]PropertyCallback, 0, 10)
 	}
 
-	*cbListPtr = append(*cbListPtr, theNewCallback)
+	// clip first: a Cell is copied by value, and copies must not share the
+	// list's spare capacity, or a registration on one overwrites another's
+	*cbListPtr = append((*cbListPtr)[:len(*cbListPtr):len(*cbListPtr)], theNewCallback)
 	return nil
 }
 
